@@ -1,5 +1,6 @@
 import DashLive.Model.Auth
 import DashLive.Model.Csrf
+import DashLive.Model.Life
 import DashLive.Driver.Util
 /-! Driver channels of C15.
 
@@ -147,7 +148,108 @@ def csrfSeq : List String → Option String
     some (joinWith ";" (runOps c St.empty ops))
   | _ => none
 
+/-! `lifecycle <users,…> <op;op;…>` – credential lifecycle (`DashLive.Life`), accounts are numbers.
+  `L<u>` login of account u (logins are numbered 0,1,… in order) → ok | refused
+  `F<k>` GET /api/refresh/access with the refresh token of login k; the access token obtained becomes
+         access token number 1,2,… of login k (number 0 is the one the login returned) → ok | refused
+  `O<k>.<j>` DELETE /api/login with access token j of login k → ok | refused
+  `H<k>` GET /logout with the session cookie of login k → done
+  `D<u>` an admin deletes account u → done        `P` server restart → done       `T<n>` clock → done
+  probes: `a<k>.<j>` access token j of login k, `r<k>` refresh token, `c<k>` session cookie
+          → accepted | refused -/
+namespace LifeDrv
+open DashLive.Life
+
+structure Login where
+  access : List Tok
+  refresh : Tok
+  cookie : Cookie
+
+structure DSt where
+  st : Life.St
+  logins : List (Option Login)
+
+def parseKJ (s : String) : Option (Nat × Nat) :=
+  match s.splitOn "." with
+  | [k, j] => do some (← parseNat k, ← parseNat j)
+  | _ => none
+
+def getLogin (d : DSt) (k : Nat) : Option Login := (d.logins[k]?).join
+
+def setLogin (d : DSt) (k : Nat) (l : Login) : DSt :=
+  { d with logins := d.logins.set k (some l) }
+
+def runOp (d : DSt) (op : String) : Option (DSt × String) :=
+  let tag := op.take 1
+  let arg := (op.drop 1).toString
+  match tag.toString with
+  | "L" => do
+    let u ← parseNat arg
+    match Life.step d.st (.login u) with
+    | (st', Life.Out.creds a r c) => some ({ st := st', logins := d.logins ++ [some ⟨[a], r, c⟩] }, "ok")
+    | (st', _) => some ({ st := st', logins := d.logins ++ [none] }, "refused")
+  | "F" => do
+    let k ← parseNat arg
+    match getLogin d k with
+    | none => some (d, "refused")
+    | some l =>
+      match Life.step d.st (.refreshAccess l.refresh) with
+      | (st', Life.Out.access a) => some (setLogin { d with st := st' } k { l with access := l.access ++ [a] }, "ok")
+      | (st', _) => some ({ d with st := st' }, "refused")
+  | "O" => do
+    let (k, j) ← parseKJ arg
+    match (getLogin d k).bind (fun l => l.access[j]?) with
+    | none => some (d, "refused")
+    | some a =>
+      match Life.step d.st (.apiLogout a) with
+      | (st', Life.Out.done) => some ({ d with st := st' }, "ok")
+      | (st', _) => some ({ d with st := st' }, "refused")
+  | "H" => do
+    let k ← parseNat arg
+    match getLogin d k with
+    | none => some (d, "done")
+    | some l => some ({ d with st := (Life.step d.st (.htmlLogout l.cookie)).1 }, "done")
+  | "D" => do
+    let u ← parseNat arg
+    some ({ d with st := (Life.step d.st (.deleteUser u)).1 }, "done")
+  | "P" => some ({ d with st := (Life.step d.st .restart).1 }, "done")
+  | "T" => do
+    let n ← parseNat arg
+    some ({ d with st := (Life.step d.st (.tick n)).1 }, "done")
+  | "a" => do
+    let (k, j) ← parseKJ arg
+    match (getLogin d k).bind (fun l => l.access[j]?) with
+    | none => some (d, "refused")
+    | some a => some (d, if tokAccepted d.st a .access then "accepted" else "refused")
+  | "r" => do
+    let k ← parseNat arg
+    match getLogin d k with
+    | none => some (d, "refused")
+    | some l => some (d, if tokAccepted d.st l.refresh .refresh then "accepted" else "refused")
+  | "c" => do
+    let k ← parseNat arg
+    match getLogin d k with
+    | none => some (d, "refused")
+    | some l => some (d, if cookieAccepted d.st l.cookie then "accepted" else "refused")
+  | _ => none
+
+def runOps : DSt → List String → Option (List String)
+  | _, [] => some []
+  | d, op :: rest => do
+    let (d', out) ← runOp d op
+    let outs ← runOps d' rest
+    some (out :: outs)
+
+def lifecycle : List String → Option String
+  | [users, ops] => do
+    let us ← parseNatList users
+    let outs ← runOps { st := { now := 0, rows := [], users := us, nextJti := 0 }, logins := [] } (ops.splitOn ";")
+    some (joinWith ";" outs)
+  | _ => none
+
+end LifeDrv
+
 def channels : List (String × (List String → Option String)) :=
-  [("authz", authz), ("csrf_seq", csrfSeq)]
+  [("authz", authz), ("csrf_seq", csrfSeq), ("lifecycle", LifeDrv.lifecycle)]
 
 end DashLive.Driver.Csrf
